@@ -1437,6 +1437,12 @@ func (vm *VM) Reset() {
 	vm.halted = false
 }
 
+// HasBuiltin reports whether name is a built-in function of the VM.
+func HasBuiltin(name string) bool {
+	_, ok := NewVM().builtins[name]
+	return ok
+}
+
 // registerBuiltins registers all built-in functions
 func (vm *VM) registerBuiltins() {
 	// time.now() - returns current Unix timestamp
